@@ -8,3 +8,11 @@ package context
 //@ contract Context.Configuration
 //@   tags C04
 //@   opt inline yes
+
+//@ contract Context.IncludesDir
+//@   tags C05
+//@   opt inline yes
+
+//@ contract Context.ExcludesDir
+//@   tags C05
+//@   opt inline yes
